@@ -57,6 +57,7 @@ func runC03RenominateRace(c *core.Ctx) {
 	d.S.Settle()
 	A.Conn, _ = A.A.StartDial(B.Ufrag, B.Pwd)
 	B.Conn, _ = B.A.StartAccept(A.Ufrag, A.Pwd)
+	d.S.Settle()
 	for i := 0; i < 200 && !(A.LastState() == ice.ConnectionStateConnected && B.LastState() == ice.ConnectionStateConnected); i++ {
 		d.S.StepFair(ci / 2)
 	}
